@@ -59,6 +59,9 @@ pub enum RrStep {
     ReplyBad { q: usize, tag: BadTag },
     RepErr(usize),
     EndRep(usize),
+    /// the peer's connection dies: stream ends and its sink fails from now on
+    CrashReq(usize),
+    CrashRep(usize),
     /// hostile / confused peers (C11): frames of the wrong kind mid-stream
     ReqFrame { r: usize, kind: OddFrame },
     RepFrame { q: usize, kind: OddFrame },
@@ -143,6 +146,8 @@ pub struct RrFlags {
     pub odd_frames: bool,
     pub departures: bool,
     pub large: bool,
+    /// some departures are connection deaths (stream end + sink failure together)
+    pub crashes: bool,
 }
 
 pub fn gen_script(rng: &mut Rng, flags: RrFlags) -> RrScript {
@@ -275,14 +280,14 @@ pub fn gen_script(rng: &mut Rng, flags: RrFlags) -> RrScript {
                 let c: Vec<usize> = (0..n_req).filter(|i| !ended_req[*i]).collect();
                 let r = *rng.pick(&c);
                 ended_req[r] = true;
-                steps.push(RrStep::EndReq(r));
+                steps.push(if flags.crashes && rng.chance(1, 3) { RrStep::CrashReq(r) } else { RrStep::EndReq(r) });
             }
             10 => {
                 let c: Vec<usize> = (0..n_rep).filter(|i| !ended_rep[*i] && reg_rep[*i]).collect();
                 if !c.is_empty() {
                     let q = *rng.pick(&c);
                     ended_rep[q] = true;
-                    steps.push(RrStep::EndRep(q));
+                    steps.push(if flags.crashes && rng.chance(1, 3) { RrStep::CrashRep(q) } else { RrStep::EndRep(q) });
                 }
             }
             11 => {
@@ -545,6 +550,23 @@ impl<'a> Run<'a> {
                 self.req_ended[*r] = true;
                 lock(&self.world).end_stream(*r);
                 self.out.fault("requestor_stream_end");
+            }
+            RrStep::CrashReq(r) => {
+                if *r >= n_req || self.req_ended[*r] {
+                    return;
+                }
+                self.req_ended[*r] = true;
+                lock(&self.world).crash_peer(*r);
+                self.out.fault("requestor_connection_death");
+            }
+            RrStep::CrashRep(q) => {
+                if *q >= self.sc.n_rep || self.rep_ended[*q] {
+                    return;
+                }
+                self.rep_ended[*q] = true;
+                let sink = self.rep_sink(*q);
+                lock(&self.world).crash_peer(sink);
+                self.out.fault("replier_connection_death");
             }
             RrStep::Reply { q, pick } => {
                 if *q >= self.sc.n_rep || !self.rep_reg[*q] || self.rep_ended[*q] {
@@ -999,7 +1021,9 @@ fn finish(mut run: Run<'_>, opts: &ExecOpts) -> Outcome {
                                 run.out.violate(prop, "reply-altered", "reqrep", format!("reply {}: requestor {r} received {:?}, expected {:?}", e.label, f, e.expected));
                             }
                         }
-                        let sink_ok = run.req_reg[r] && !w.sinks[r].errored && !run.req_ended[r] && !run.hostile_req[r];
+                        // a requestor whose request stream has ended but whose sink works is half-closed,
+                        // not gone: it is still connected in the direction replies travel
+                        let sink_ok = run.req_reg[r] && !w.sinks[r].errored && !run.closed && !run.hostile_req[r];
                         if c == 0 && was_taken && sink_ok && alive && !hostile {
                             run.out.violate(
                                 prop,
@@ -1202,14 +1226,14 @@ pub struct ReqRepFamily {
     pub flags: RrFlags,
 }
 
-const BASE: RrFlags = RrFlags { fails: false, stream_errs: false, close: false, force_wake: None, partial: false, multi_replier: false, bad_tags: false, odd_frames: false, departures: false, large: false };
+const BASE: RrFlags = RrFlags { fails: false, stream_errs: false, close: false, force_wake: None, partial: false, multi_replier: false, bad_tags: false, odd_frames: false, departures: false, large: false, crashes: false };
 
 pub static RR_CLEAN: ReqRepFamily = ReqRepFamily { name: "reqrep-clean", flags: RrFlags { bad_tags: true, ..BASE } };
-pub static RR_WAKE: ReqRepFamily = ReqRepFamily { name: "reqrep-wake", flags: RrFlags { bad_tags: true, stream_errs: true, departures: true, force_wake: Some(true), ..BASE } };
-pub static RR_PARTIAL: ReqRepFamily = ReqRepFamily { name: "reqrep-partial-topology", flags: RrFlags { partial: true, departures: true, force_wake: Some(true), ..BASE } };
+pub static RR_WAKE: ReqRepFamily = ReqRepFamily { name: "reqrep-wake", flags: RrFlags { bad_tags: true, stream_errs: true, departures: true, crashes: true, force_wake: Some(true), ..BASE } };
+pub static RR_PARTIAL: ReqRepFamily = ReqRepFamily { name: "reqrep-partial-topology", flags: RrFlags { partial: true, departures: true, crashes: true, force_wake: Some(true), ..BASE } };
 pub static RR_REPLIERS: ReqRepFamily = ReqRepFamily { name: "reqrep-repliers", flags: RrFlags { multi_replier: true, ..BASE } };
 pub static RR_SHUTDOWN: ReqRepFamily = ReqRepFamily { name: "reqrep-shutdown", flags: RrFlags { close: true, multi_replier: true, departures: true, ..BASE } };
-pub static RR_FAIL_RANDOM: ReqRepFamily = ReqRepFamily { name: "reqrep-fail-random", flags: RrFlags { fails: true, stream_errs: true, departures: true, multi_replier: true, ..BASE } };
+pub static RR_FAIL_RANDOM: ReqRepFamily = ReqRepFamily { name: "reqrep-fail-random", flags: RrFlags { fails: true, stream_errs: true, departures: true, crashes: true, multi_replier: true, ..BASE } };
 pub static RR_FRAMES: ReqRepFamily = ReqRepFamily { name: "reqrep-frames", flags: RrFlags { odd_frames: true, bad_tags: true, ..BASE } };
 pub static RR_FRAMES_REBIND: ReqRepFamily = ReqRepFamily { name: "reqrep-frames-rebind", flags: RrFlags { odd_frames: true, multi_replier: true, departures: true, ..BASE } };
 
@@ -1318,7 +1342,7 @@ pub fn shrink_script(sc: &RrScript) -> Vec<RrScript> {
         let last = sc.n_rep - 1;
         let sink = sc.n_req + last;
         let used = sc.steps.iter().any(|s| match s {
-            RrStep::RegRep(q) | RrStep::EndRep(q) | RrStep::RepErr(q) => *q == last,
+            RrStep::RegRep(q) | RrStep::EndRep(q) | RrStep::CrashRep(q) | RrStep::RepErr(q) => *q == last,
             RrStep::Reply { q, .. } | RrStep::ReplyBad { q, .. } | RrStep::RepFrame { q, .. } => *q == last,
             RrStep::Gate { sink: s, .. } => *s == sink,
             _ => false,
